@@ -38,7 +38,36 @@ def producers(F):
             if rv["k"] != "agg" or rv.get("adt") != ADHOC or site_in_derive(s["exp"]):
                 continue
             du = du or mir.DefUse(f)
-            names = [o.const["str"] for o in mir.provenance(f, du, rv["ops"][rv["fields"].index("name")]) if o.kind == "const" and "str" in o.const]
+            norg = mir.provenance(f, du, rv["ops"][rv["fields"].index("name")])
+            names = [o.const["str"] for o in norg if o.kind == "const" and "str" in o.const]
+            if len(names) != 1 and norg and all(o.kind == "arg" for o in norg) and f["def_kind"] != "Closure":
+                # a shared helper `fn lower_keyed_directive(name: &str, fields: &[F], ..)`: each caller is a producer, with the
+                # name it passes and the keys of the field enum it instantiates the helper with
+                from .common import callers_index
+                pair_impls0 = {g.get("impl_self"): g for g in F.fns.values()
+                               if g.get("impl_trait") == "tx3_lang::lowering::IntoLower" and g.get("name") == "into_lower" and g["locals"]
+                               and g["locals"][0].startswith("std::result::Result<(std::string::String,")}
+                resolved_all = True
+                for caller, ct in callers_index(F).get(f["path"], []):
+                    cdu = mir.DefUse(caller)
+                    cn = set()
+                    for o in norg:
+                        if o.local - 1 < len(ct["args"]):
+                            for oc in mir.provenance(caller, cdu, ct["args"][o.local - 1]):
+                                sv = mir.promoted_str(F, oc.const) if oc.kind == "const" else None
+                                if sv is not None:
+                                    cn.add(sv)
+                    if len(cn) != 1:
+                        resolved_all = False
+                        continue
+                    keys = set(_tuple_keys(F, f))
+                    for ga in ct.get("gargs") or []:
+                        if ga in pair_impls0:
+                            keys |= _tuple_keys(F, pair_impls0[ga])
+                    ent = out.setdefault(cn.pop(), {"keys": set(), "fn": caller["path"], "line": ct["line"], "file": caller["file"]})
+                    ent["keys"] |= keys
+                if resolved_all and callers_index(F).get(f["path"]):
+                    continue
             if len(names) != 1:
                 out.setdefault("<non-constant name in %s>" % f["path"], {"keys": set(), "fn": f["path"], "line": s["line"], "file": f["file"]})
                 continue
